@@ -20,6 +20,7 @@ import (
 	"github.com/libp2p/go-libp2p"
 	"github.com/libp2p/go-libp2p/core/host"
 	"github.com/libp2p/go-libp2p/core/peer"
+	"github.com/multiformats/go-multiaddr"
 
 	"verifharness/internal/chain"
 	"verifharness/internal/lsys"
@@ -145,7 +146,21 @@ func runCase(tc *tcase, pub *chain.Pub, variant string) (ob observed) {
 	if head == 0 {
 		head = c.N
 	}
+	// the publisher as a caller may name it: peer ID and addresses, or -- every third case -- no ID, and the ID as the last component
+	// of each address.  Built anew for every call: the library strips the ID from the address slice it is given, in place.
+	mkInfo := func() peer.AddrInfo {
+		info := pub.AddrInfo()
+		if (c.N+len(c.Pre)+c.Latest0+c.SubDepth)%3 == 0 && pub.Host == nil {
+			var withID []multiaddr.Multiaddr
+			for _, a := range info.Addrs {
+				withID = append(withID, a.Encapsulate(multiaddr.StringCast("/p2p/"+info.ID.String())))
+			}
+			info = peer.AddrInfo{Addrs: withID}
+		}
+		return info
+	}
 	doSync := func(ctx context.Context) (got cid.Cid, err error) {
+		info := mkInfo()
 		switch c.Kind {
 		case "ads":
 			var so []dagsync.SyncOption
@@ -164,19 +179,19 @@ func runCase(tc *tcase, pub *chain.Pub, variant string) (ob observed) {
 			if c.CallSeg != 0 {
 				so = append(so, dagsync.ScopedSegmentDepthLimit(int64(c.CallSeg)))
 			}
-			got, err = sub.SyncAdChain(ctx, pub.AddrInfo(), so...)
+			got, err = sub.SyncAdChain(ctx, info, so...)
 		case "entries":
 			var so []dagsync.SyncOption
 			if c.CallDepth != 0 {
 				so = append(so, dagsync.ScopedDepthLimit(int64(c.CallDepth)))
 			}
-			err = sub.SyncEntries(ctx, pub.AddrInfo(), ch.Cid(head), so...)
+			err = sub.SyncEntries(ctx, info, ch.Cid(head), so...)
 			got = ch.Cid(head)
 		case "one":
-			err = sub.SyncOneEntry(ctx, pub.AddrInfo(), ch.Cid(head))
+			err = sub.SyncOneEntry(ctx, info, ch.Cid(head))
 			got = ch.Cid(head)
 		case "all":
-			err = sub.SyncHAMTEntries(ctx, pub.AddrInfo(), ch.Cid(head))
+			err = sub.SyncHAMTEntries(ctx, info, ch.Cid(head))
 			got = ch.Cid(head)
 		}
 		return got, err
